@@ -1,6 +1,7 @@
 package checks
 
 import (
+	"math/bits"
 	"fmt"
 	"github.com/jsightapi/jsight-api-go-library/directive"
 	"time"
@@ -12,7 +13,7 @@ import (
 func init() {
 	fw.Register(&fw.Check{
 		ID: "C07", Level: "model_checking",
-		Rule: "(a) every host of PASTE (top level, URL, HTTP method, request, response, INFO, SERVER) x every macro body admitted there x definition before/after use x nesting depth 1..3 x explicit/implicit host context, plus every pool document that uses macros: if accepted, the inlined document must be accepted with byte-identical JSON, and an extra never-pasted macro must change nothing; (b) ALL paste graphs over <= 4 macros (every subset of the n*n PASTE edges) x definition order x used/unused: cyclic, undefined and duplicate cases must be rejected (a crash or overflow is a violation), acyclic ones must equal their inlining; non-trivial = document with at least one PASTE; distinct = distinct texts",
+		Rule: "(a) every host of PASTE (top level, URL, HTTP method, request, response, INFO, SERVER) x every macro body admitted there x definition before/after use x nesting depth 1..3 x explicit/implicit host context, plus every pool document that uses macros: if accepted, the inlined document must be accepted with byte-identical JSON, and an extra never-pasted macro must change nothing; (b) ALL paste graphs over <= 4 macros (every subset of the n*n PASTE edges; thorough: also 5 macros with <= 6 edges) x definition order x used/unused: cyclic, undefined and duplicate cases must be rejected (a crash or overflow is a violation), acyclic ones must equal their inlining; non-trivial = document with at least one PASTE; distinct = distinct texts",
 		Run:  runC07, QuickCap: 6 * time.Minute, ThoroughCap: 40 * time.Minute,
 	})
 }
@@ -263,11 +264,17 @@ func runC07(c *fw.Ctx) {
 
 	// (b) all paste graphs
 	maxN := 4
+	if !c.Quick() {
+		maxN = 5 // five macros: every edge set with at most 6 PASTE edges
+	}
 	for n := 1; n <= maxN; n++ {
 		edges := n * n
 		for mask := 0; mask < 1<<uint(edges); mask++ {
 			if c.Expired() {
 				return
+			}
+			if n == 5 && bits.OnesCount(uint(mask)) > 6 {
+				continue
 			}
 			adj := make([][]int, n)
 			for e := 0; e < edges; e++ {
